@@ -118,6 +118,10 @@ def install():
                 # "the Python code up to and including the next kernel".  After the kernel returns the turn is given up
                 # and must be re-acquired before the thread's Python code continues, so another thread's steps can run
                 # between this kernel and whatever consumes its output (e.g. a BLAS call on a shared temporary).
+                # A second boundary lies BEFORE the kernel: the Python code that precedes it (which may publish state that the
+                # kernel is about to fill in) is a step of its own, so another thread can run between the two.
+                sched.leave(tid)
+                sched.enter(tid)
                 try:
                     if mon is not None:
                         mon.record(tid, name, args)
@@ -139,7 +143,7 @@ def uninstall():
 
 def run_threads(calls, schedule, monitor=None):
     """calls: list of callables (one per thread); schedule: sequence of thread indices, one entry per step; a thread with
-    n kernel executions has n+1 steps (Python code + kernel, ..., and the tail after its last kernel).
+    n kernel executions has 2n+1 steps (Python code, kernel, Python code, kernel, ..., and the tail after its last kernel).
     returns list of ('ok', result) | ('raise', exc)"""
     sched = Scheduler(schedule)
     _active["sched"], _active["mon"] = sched, monitor
